@@ -9,6 +9,8 @@ CONSTANTS
   TearDown = FALSE
   ReHandshakes = 1
   IgnoreReHandshakeWhileOpen = FALSE
+  SplitTicks = FALSE
+  NegativeElapsedIsDue = FALSE
 
 VIEW View
 CONSTRAINT Bound
